@@ -19,22 +19,32 @@ open RsslVerif.Spec.CPre RsslVerif.Lemmas.CondChain RsslVerif.Lemmas.CondExpr Rs
 
 /-! ## 1. the extracted tables are the specified ones -/
 
-/-- Tie to the source: the transition table of `ConditionChain::switch`, the states pushed by
-    `#if/#ifdef/#ifndef`, the state that counts as active, the three error variants, and which commands
-    are gated by `skip` (and how) are exactly what the selection rule needs. -/
+/-- Tie to the source: the transition table of `ConditionChain::switch`, that nothing can follow the `#else`
+    branch of a block (`Block.switch`: `ElseAfterElse` / `ElifAfterElse`, otherwise `seen_else := is_else`),
+    the `is_else` flags `#else` and `#elif` pass, the states pushed by `#if/#ifdef/#ifndef` (with `seen_else =
+    false`), the state that counts as active, the five error variants, which commands are gated by `skip`
+    (and how), and that a directive without a name is ignored while skipping are exactly what the selection
+    rule and the C grammar of if-sections need. -/
 theorem chain_tables_agree :
     (∀ b, CS.switch .Enabled b = .DisabledOuter) ∧
     CS.switch .DisabledInner true = .Enabled ∧ CS.switch .DisabledInner false = .DisabledInner ∧
     (∀ b, CS.switch .DisabledOuter b = .DisabledOuter) ∧
+    (∀ c a, Block.switch ⟨c, true⟩ a true = .error .ElseAfterElse) ∧
+    (∀ c a, Block.switch ⟨c, true⟩ a false = .error .ElifAfterElse) ∧
+    (∀ c a e, Block.switch ⟨c, false⟩ a e = .ok ⟨c.switch a, e⟩) ∧
+    (∀ c, newBlock c = ⟨c, false⟩) ∧ elseIsElse = true ∧ elifIsElse = false ∧
     pushState true = .Enabled ∧ pushState false = .DisabledInner ∧ activeState = .Enabled ∧
     elseSwitchArg = true ∧
     switchEmptyErr = .ElseNotMatched ∧ popEmptyErr = .EndIfNotMatched ∧
-    unfinishedErr = .ConditionChainNotFinished ∧
+    unfinishedErr = .ConditionChainNotFinished ∧ fileUnfinishedErr = .ConditionChainNotFinished ∧
+    nonNameGate = .skipNoEffect ∧
     gate "if" = .skipPushes .DisabledInner ∧ gate "ifdef" = .skipPushes .DisabledInner ∧
     gate "ifndef" = .skipPushes .DisabledInner ∧
     gate "elif" = .notGated ∧ gate "else" = .notGated ∧ gate "endif" = .notGated ∧
     gate "define" = .skipNoEffect ∧ gate "undef" = .skipNoEffect ∧ gate "include" = .skipNoEffect ∧
     gate "pragma" = .skipNoEffect := by
+  refine ⟨by decide, by decide, by decide, by decide, fun _ _ => rfl, fun _ _ => rfl, fun _ _ _ => rfl,
+    fun _ => rfl, ?_⟩
   decide
 
 /-! ## 2. the automaton selects what the tree-shaped reference selects -/
@@ -63,7 +73,7 @@ theorem automaton_refines_tree (Inv : Macros → Prop) (cv : Macros → List CTo
     unchanged and have the reference effect for "enclosing group processed = `active ch`". -/
 theorem automaton_refines_tree_any_stack (Inv : Macros → Prop)
     (cv : Macros → List CTok → Except CondErr Bool) (t : Items)
-    (hwf : ItemsWF Inv cv t) (ch : List CS) (m : Macros) (hm : Inv m) (out : Out) :
+    (hwf : ItemsWF Inv cv t) (ch : List Block) (m : Macros) (hm : Inv m) (out : Out) :
     run cv ⟨ch, m, out⟩ (flattenItems t) =
       match t.sel cv (active ch) (m, out) with
       | .ok s' => .ok ⟨ch, s'.1, s'.2⟩
@@ -97,9 +107,10 @@ example :
   exact ⟨true, rfl⟩
 
 /-- Lines inside a group that is not being processed have no effect, whatever they are: `#define`,
-    `#undef`, `#include` (even of a missing file), `#pragma` (even unknown), unknown directives and text
-    leave macro table and output untouched and cannot fail. -/
-theorem inactive_has_no_effect (cv : Macros → List CTok → Except CondErr Bool) (ch : List CS)
+    `#undef`, `#include` (even of a missing file), `#pragma` (even unknown), unknown directives, directives
+    that do not even start with a name (`#3`, since fix ed75afa) and text leave macro table and output
+    untouched and cannot fail. -/
+theorem inactive_has_no_effect (cv : Macros → List CTok → Except CondErr Bool) (ch : List Block)
     (m : Macros) (out : List (List CTok)) (h : active ch = false) (d : Dir)
     (hd : shape d = .other) :
     step cv ⟨ch, m, out⟩ d = .ok ⟨ch, m, out⟩ := by
@@ -107,45 +118,68 @@ theorem inactive_has_no_effect (cv : Macros → List CTok → Except CondErr Boo
   cases d <;> simp_all [shape]
 
 /-- … and an `#if/#ifdef/#ifndef` met there is not evaluated: it only deepens the stack. -/
-theorem inactive_if_not_evaluated (cv : Macros → List CTok → Except CondErr Bool) (ch : List CS)
+theorem inactive_if_not_evaluated (cv : Macros → List CTok → Except CondErr Bool) (ch : List Block)
     (m : Macros) (out : List (List CTok)) (h : active ch = false) (d : Dir) (hd : shape d = .opens) :
-    step cv ⟨ch, m, out⟩ d = .ok ⟨.DisabledInner :: ch, m, out⟩ := by
+    step cv ⟨ch, m, out⟩ d = .ok ⟨⟨.DisabledInner, false⟩ :: ch, m, out⟩ := by
   rw [step_inactive cv ch m out h]
   cases d <;> simp_all [shape]
 
-/-! ## 3. unterminated chains and unmatched `#else/#endif` are rejected -/
+/-! ## 3. unterminated chains, unmatched `#else/#endif` and everything after an `#else` are rejected -/
 
 /-- **Main theorem (rejection).**  For every line list whose lines cannot fail for another reason
     (`CleanDir`: well-formed conditions, no unknown pragma/directive, no missing include): the file is
-    accepted iff the nesting-depth scan of the property accepts it, and otherwise it is rejected with
-    exactly `ElseNotMatched` / `EndIfNotMatched` / `ConditionChainNotFinished` as the scan says. -/
+    accepted iff the grammar scan of C accepts it (`Spec.CPre.scanC`: every `#elif/#else/#endif` has its
+    `#if`, nothing follows the `#else` of an if-section, every if-section is closed), and otherwise it is
+    rejected with exactly `ElseNotMatched` / `EndIfNotMatched` / `ElseAfterElse` / `ElifAfterElse` /
+    `ConditionChainNotFinished` as the scan says.  (Before fix 03ca601 this held for the depth scan only; a
+    second `#else` and an `#elif` after `#else` were accepted: the former negation witnesses.) -/
 theorem unmatched_rejected (cv : Macros → List CTok → Except CondErr Bool) (ds : List Dir)
     (hclean : ∀ d ∈ ds, CleanDir cv d) (m : Macros) :
-    (runFile cv m ds).map (fun _ => ()) = (scan 0 (ds.map shape)).mapError shapeErr := by
+    (runFile cv m ds).map (fun _ => ()) = (scanC [] (ds.map shape)).mapError shapeErr := by
   have h := run_scan cv ds hclean ⟨[], m, []⟩
-  simp only [List.length_nil] at h
+  simp only [flags, List.map_nil] at h
   rw [← h]
   unfold runFile finish
   cases run cv ⟨[], m, []⟩ ds with
   | error e => rfl
-  | ok s => cases hs : s.chain.isEmpty <;> simp [hs, Except.map]
+  | ok s =>
+    by_cases h1 : s.chain.length ≠ 0
+    · simp [h1, Except.map]
+    · cases hs : s.chain.isEmpty <;> simp [h1, hs, Except.map]
+
+/-- corollary: the accepted clean line lists are exactly the ones that satisfy the strict C grammar of
+    if-sections (`scanStrict`: at most one `#else` per if-section, no `#elif` after it, balanced) -/
+theorem strict_grammar_enforced (cv : Macros → List CTok → Except CondErr Bool) (ds : List Dir)
+    (hclean : ∀ d ∈ ds, CleanDir cv d) (m : Macros) :
+    (∃ s, runFile cv m ds = .ok s) ↔ scanStrict [] (ds.map shape) = true := by
+  have h := unmatched_rejected cv ds hclean m
+  rw [← scanC_ok_iff_strict]
+  constructor
+  · rintro ⟨s, hs⟩
+    rw [hs] at h
+    cases hc : scanC [] (ds.map shape) with
+    | ok u => rfl
+    | error e => rw [hc] at h; simp [Except.map, Except.mapError] at h
+  · intro hc
+    rw [hc] at h
+    cases hr : runFile cv m ds with
+    | ok s => exact ⟨s, rfl⟩
+    | error e => rw [hr] at h; simp [Except.map, Except.mapError] at h
 
 /-- corollary: well-nested input is accepted -/
 theorem well_nested_accepted (cv : Macros → List CTok → Except CondErr Bool) (ds : List Dir)
-    (hclean : ∀ d ∈ ds, CleanDir cv d) (m : Macros) (hscan : scan 0 (ds.map shape) = .ok ()) :
-    ∃ s, runFile cv m ds = .ok s := by
-  have h := unmatched_rejected cv ds hclean m
-  rw [hscan] at h
-  cases hr : runFile cv m ds with
-  | ok s => exact ⟨s, rfl⟩
-  | error e => rw [hr] at h; simp [Except.map, Except.mapError] at h
+    (hclean : ∀ d ∈ ds, CleanDir cv d) (m : Macros) (hscan : scanStrict [] (ds.map shape) = true) :
+    ∃ s, runFile cv m ds = .ok s :=
+  (strict_grammar_enforced cv ds hclean m).2 hscan
 
-/-- Non-vacuity of `CleanDir` and the three rejections on concrete inputs of the real evaluator. -/
+/-- Non-vacuity of `CleanDir` and the five rejections on concrete inputs of the real evaluator. -/
 example :
     (runReal [] [.ifc [.LiteralInt 1], .text [.Id "a"]]).toOption = none ∧
     runReal [] [.text [.Id "a"], .els] = .error (.chain .ElseNotMatched) ∧
     runReal [] [.ifc [.LiteralInt 1], .endif, .endif] = .error (.chain .EndIfNotMatched) ∧
-    runReal [] [.ifc [.LiteralInt 0], .ifdef false "X"] = .error (.chain .ConditionChainNotFinished) := by
+    runReal [] [.ifc [.LiteralInt 0], .ifdef false "X"] = .error (.chain .ConditionChainNotFinished) ∧
+    runReal [] [.ifc [.LiteralInt 1], .els, .els, .endif] = .error (.chain .ElseAfterElse) ∧
+    runReal [] [.ifc [.LiteralInt 1], .els, .elif [.LiteralInt 1], .endif] = .error (.chain .ElifAfterElse) := by
   decide
 
 /-- Every line sequence that comes from a tree passes the *strict* C grammar check (at most one `#else`
@@ -154,21 +188,24 @@ theorem tree_lines_are_grammatical (t : Items) : scanStrict [] ((flattenItems t)
   have h := Items.strict t [] []
   simpa [scanStrict] using h
 
-/-- **Negation witness.**  The stronger statement "every line list that violates the C grammar is
-    rejected" is false for the code as it is: a second `#else` in one if-section (and an `#elif` after
-    `#else`) fails the strict check but is accepted, and its text silently dropped.  Replayed on the real
-    preprocessor by `corpus/C11.txt` (known finding `else-after-else accepted`). -/
-theorem else_after_else_accepted :
+/-- **A second `#else` is rejected** (the input of the former negation witness `else_after_else_accepted`,
+    repaired by fix 03ca601): the line list fails the strict check and the model — like the real
+    preprocessor, replayed by `corpus/C11.txt` — rejects it with `ElseAfterElse`; also when the if-section
+    lies inside a group that is skipped.  The general statement is `unmatched_rejected`. -/
+theorem else_after_else_rejected :
     let ds : List Dir := [.ifc [.LiteralInt 0], .els, .text [.Id "a"], .els, .text [.Id "b"], .endif]
     scanStrict [] (ds.map shape) = false ∧
-    (runReal [] ds).toOption.map (·.out) = some [[.Id "a"]] := by
+    runReal [] ds = .error (.chain .ElseAfterElse) ∧
+    runReal [] ([.ifc [.LiteralInt 0]] ++ ds ++ [.endif]) = .error (.chain .ElseAfterElse) := by
   decide
 
-theorem elif_after_else_accepted :
+/-- **An `#elif` after `#else` is rejected** (former witness `elif_after_else_accepted`, fix 03ca601). -/
+theorem elif_after_else_rejected :
     let ds : List Dir := [.ifc [.LiteralInt 0], .els, .text [.Id "a"], .elif [.LiteralInt 1],
       .text [.Id "b"], .endif]
     scanStrict [] (ds.map shape) = false ∧
-    (runReal [] ds).toOption.map (·.out) = some [[.Id "a"]] := by
+    runReal [] ds = .error (.chain .ElifAfterElse) ∧
+    runReal [] ([.ifc [.LiteralInt 0]] ++ ds ++ [.endif]) = .error (.chain .ElifAfterElse) := by
   decide
 
 /-- **Documented divergence outside the property** (the reason for the well-formedness hypothesis of
@@ -410,62 +447,89 @@ example :
   exact ⟨fun m hm => literalMacros_define m "A" _ 5 rfl hm,
          total_under_literal_macros _ (by decide)⟩
 
-/-! ## 5. include boundaries: one condition chain for all files
+/-! ## 5. include boundaries: every file's conditional directives balance on their own
 
 `Model.CondFile` is the composed token-level model (`preprocess_command` + the token loop of
 `preprocess_included_file` + `FileLoader` + the C12 macro engine); it is compared with the real
 `rssl_preprocess::preprocess` on every run (`C11.raw`).  In C every file's conditional directives must balance
-by themselves.  The code has no such rule, and the model proves what happens instead. -/
+by themselves.  Since fix 115a619 the code has this rule (one `ConditionChain` object, but every file works
+above the number of blocks that were open at its start), and the model proves it. -/
 
 section IncludeBoundary
 open RsslVerif.Model.CondFile RsslVerif.Model.Macro RsslVerif.Lemmas.CondFile
 
-/-- Tie to the source for the composed model: the include-depth limit, that `#include` hands the includer's own
-    `ConditionChain` to `preprocess_included_file` (which never inspects it), that `find_single_macro` tests
-    for `defined` before the macro loop, that the recursive expansions run with `apply_defined = false`, and
-    that only `#if/#elif` lines use `apply_defined = true` — re-extracted from `/repo` on every run
+/-- Tie to the source for the composed model: the include-depth limit, that `preprocess_included_file` records
+    the block count at its start, checks it at its end and restores the includer's (`chainPerFile`), that
+    `switch`/`pop` cannot reach below it (`fileBaseGuardsSwitchAndPop`), that `find_single_macro` tests for
+    `defined` before the macro loop, that the recursive expansions run with `apply_defined = false`, that only
+    `#if/#elif` lines use `apply_defined = true`, that an API define with a line break is refused, and the
+    three token kinds the name split of `preprocess_command` accepts — re-extracted from `/repo` on every run
     (`tools/gens/c11.py` raises `ExtractError` when a shape changes). -/
 theorem composed_shape_agree :
-    maxIncludeDepth = 200 ∧ chainSharedByIncludes = true ∧ definedTestFirst = true ∧
-    innerCallsWithoutDefined = true ∧ definedOnlyInConditions = true := by
+    maxIncludeDepth = 200 ∧ chainPerFile = true ∧ fileBaseGuardsSwitchAndPop = true ∧ definedTestFirst = true ∧
+    innerCallsWithoutDefined = true ∧ definedOnlyInConditions = true ∧ apiDefineRejectsLineBreak = true ∧
+    nameTokens = ["Id", "If", "Else"] := by
   decide
 
-/-- **The chain is shared across `#include` (for every includer state).**  Whatever handler, fuel and state:
-    including a file whose whole text is `#endif` pops the level the *includer* opened; a file `#else` switches
-    the includer's if-section; a file `#ifdef X` returns with its level still open — in all three cases without
-    an error, the stack simply handed back.  So an `#if` *can* be closed by another file's `#endif`. -/
-theorem include_shares_chain (h : Handler) (fuel : Nat) (name : String) (st : FState)
+/-- **Main theorem (files).**  For every include handler, fuel, file name and includer state — any file
+    contents, any nesting of further includes, any macros: if processing the included file succeeds, the
+    condition chain (every block with its state and its `#else` flag) and the file base are handed back to
+    the includer exactly as they were.  An included file can therefore neither close, nor switch, nor leave
+    open an if-section across its boundary: each file's `#if … #endif` balance on their own (the C rule;
+    before fix 115a619 the chain was shared and the opposite was proved, `include_shares_chain`). -/
+theorem included_file_is_balanced (h : Handler) (fuel : Nat) (name : String) (st st' : FState)
+    (hok : includeFile h fuel name st = .ok st') : st'.chain = st.chain ∧ st'.base = st.base :=
+  includeFile_restores h fuel name st st' hok
+
+/-- … and while the file is being processed the includer's blocks stay untouched at the bottom of the
+    stack: the invariant `Above st.chain` holds after every prefix of the file's token stream. -/
+theorem includers_blocks_untouched (h : Handler) (fuel : Nat) (cur : String) (st : FState) (items : List SItem)
+    (ps : PState) (act act' : List PTok) (st' : FState)
+    (hl : fileLoop (includeFile h fuel) cur { st with base := st.chain.length } ps act items = .ok (st', act')) :
+    ∃ pre, st'.chain = pre ++ st.chain ∧ st'.base = st.chain.length :=
+  fileLoop_above _ (includeFile_restores h fuel) cur st.chain items _ ps act st' act' ⟨[], by simp, rfl⟩ hl
+
+/-- **What an included file cannot do (for every includer state).**  Whatever handler, fuel and state: a file
+    whose whole text is `#endif` is rejected with `EndIfNotMatched` — it does not pop the level the *includer*
+    opened; a file `#else` is rejected with `ElseNotMatched`; a file `#ifdef X` is rejected with
+    `ConditionChainNotFinished` at its end.  (The positive form of the former `include_shares_chain`.) -/
+theorem include_cannot_touch_includers_chain (h : Handler) (fuel : Nat) (name : String) (st : FState)
     (ho : st.once.contains name = false) :
-    (∀ c ch, h name = some hdrEndif → st.chain = c :: ch →
-      includeFile h (fuel + 1) name st = .ok { st with chain := ch }) ∧
-    (∀ c ch, h name = some hdrElse → st.chain = c :: ch →
-      includeFile h (fuel + 1) name st = .ok { st with chain := c.switch elseSwitchArg :: ch }) ∧
+    (h name = some hdrEndif → includeFile h (fuel + 1) name st = .error (.chain .EndIfNotMatched)) ∧
+    (h name = some hdrElse → includeFile h (fuel + 1) name st = .error (.chain .ElseNotMatched)) ∧
     (∀ x, h name = some (hdrIfdef x) →
-      includeFile h (fuel + 1) name st = .ok { st with chain :=
-        (if RsslVerif.Model.CondFile.active st.chain then pushState (st.macros.any (fun m => m.name == x))
-         else .DisabledInner) :: st.chain }) :=
-  ⟨fun c ch hf hc => include_endif h fuel name st c ch hf ho hc,
-   fun c ch hf hc => include_else h fuel name st c ch hf ho hc,
+      includeFile h (fuel + 1) name st = .error (.chain .ConditionChainNotFinished)) :=
+  ⟨fun hf => include_endif h fuel name st hf ho,
+   fun hf => include_else h fuel name st hf ho,
    fun x hf => include_ifdef h fuel name x st hf ho⟩
 
-/-- **Negation witness (end to end).**  `wHdrA` = `#ifndef A⏎2⏎` opens an if-section and never closes it,
-    `wMainA` = `#include "h.h"⏎1⏎#endif⏎` closes it: neither file is balanced (C rejects both: "unterminated
-    #ifndef", "#endif without #if"), yet the whole run is accepted and yields `2 1`.  Replayed on the real
-    preprocessor by `corpus/C11.txt` (known finding `unterminated-in-include accepted`). -/
-theorem if_closed_by_includers_endif_accepted :
+/-- **End to end (former negation witness `if_closed_by_includers_endif_accepted`).**  `wHdrA` = `#ifndef A⏎2⏎`
+    opens an if-section and never closes it, `wMainA` = `#include "h.h"⏎1⏎#endif⏎` would close it: neither file
+    is balanced (C rejects both), and the whole run is rejected with `ConditionChainNotFinished`.  Replayed on
+    the real preprocessor by `corpus/C11.txt` (fixed finding `unterminated-in-include accepted`). -/
+theorem if_closed_by_includers_endif_rejected :
     fileBalanced wHdrA = false ∧ fileBalanced wMainA = false ∧
     preprocessAll (fun n => if n = "main.rssl" then some wMainA else if n = "h.h" then some wHdrA else none)
-      [] "main.rssl" = .ok [⟨.int "2", true⟩, ⟨.endline, true⟩, ⟨.int "1", true⟩, ⟨.endline, true⟩] :=
+      [] "main.rssl" = .error (.chain .ConditionChainNotFinished) :=
   RsslVerif.Lemmas.CondFile.witnessA
 
-/-- **Negation witness.**  `hdrElse` = `#else⏎` has an `#else` without an `#if` (C rejects); included from
-    inside the selected group of `wMainB` = `#ifndef A⏎1⏎#include "h.h"⏎2⏎#endif⏎` it ends that group: `2` is
-    silently dropped.  Known finding `unmatched-in-include accepted`. -/
-theorem else_of_other_file_accepted :
+/-- **End to end (former negation witness `else_of_other_file_accepted`).**  `hdrElse` = `#else⏎` has an `#else`
+    without an `#if`; included from inside the selected group of `wMainB` = `#ifndef A⏎1⏎#include "h.h"⏎2⏎#endif⏎`
+    it is rejected with `ElseNotMatched`.  Fixed finding `unmatched-in-include accepted`. -/
+theorem else_of_other_file_rejected :
     fileBalanced hdrElse = false ∧
     preprocessAll (fun n => if n = "main.rssl" then some wMainB else if n = "h.h" then some hdrElse else none)
-      [] "main.rssl" = .ok [⟨.int "1", true⟩, ⟨.endline, true⟩] :=
+      [] "main.rssl" = .error (.chain .ElseNotMatched) :=
   RsslVerif.Lemmas.CondFile.witnessB
+
+/-- **Directives that do not start with a name** (`#3`, `# +`, `#"x"`; fix ed75afa), on the token-level model,
+    for every state: inside a group that is not being processed such a directive has no effect at all; where
+    it is processed it is an `UnknownCommand`. -/
+theorem nonname_directive_ignored_when_skipped (inc : String → FState → Except RsslVerif.Model.CondFile.Err FState)
+    (cur : String) (st : FState) (cmd : List PTok) (hn : commandName cmd = none) :
+    (RsslVerif.Model.CondFile.active st.chain = false → command inc cur st cmd = .ok st) ∧
+    (RsslVerif.Model.CondFile.active st.chain = true → command inc cur st cmd = .error .unknownCommand) := by
+  constructor <;> intro ha <;> simp [command, hn, gated, ha, nonNameGate]
 
 end IncludeBoundary
 
